@@ -73,7 +73,11 @@ func AuthFirstPacket(firstPacket []byte, transport Transport, sta *State) (info 
 		return
 	}
 
-	if sta.registerRandom(fragments.randPubKey) {
+	// X25519 ignores the most significant bit of the public key, so two keys differing only there give
+	// the same shared secret and authenticate the same sealed payload: they must be one cache entry
+	cacheKey := fragments.randPubKey
+	cacheKey[31] &= 0x7f
+	if sta.registerRandom(cacheKey) {
 		err = ErrReplay
 		return
 	}
